@@ -1,6 +1,7 @@
-// C15 correspondence harness: operation sequences (batches of set/delete/merge, readers opened at
-// arbitrary points and read later, get / multi-get / prefix and range iterators driven by Seek/Next
-// programs) run against the five KV stores usable under the upsidedown index, obtained through
+// C15 correspondence harness: operation sequences (batches of set/delete/merge — small ones, and
+// large ones that touch keys repeatedly —, readers opened at arbitrary points and read later, get /
+// multi-get / prefix and range iterators driven by Seek/Next programs, including backward Seeks and
+// Seeks on exhausted iterators over keys deleted by several earlier batches) run against the five KV stores usable under the upsidedown index, obtained through
 // registry.KVStoreConstructorByName.  Every value the implementation returns is recorded in the
 // Coq case; the oracle is the Coq model/spec (Kv/Adapter.v, Kv/AdapterCorr.v).
 package main
@@ -649,6 +650,428 @@ func genMop(r *vrand.R, full bool) In {
 	return in
 }
 
+// ---------------------------------------------------------------- large batches with repeated keys
+
+// a value different from every one in prev (so that a reordering of two sets is observable)
+func (g *genCtx) otherValue(prev [][]byte) []byte {
+	for try := 0; ; try++ {
+		v := g.value()
+		if try > 20 {
+			v = append(v, byte('0'+len(prev)))
+		}
+		same := false
+		for _, p := range prev {
+			if string(p) == string(v) {
+				same = true
+			}
+		}
+		if !same {
+			return v
+		}
+	}
+}
+
+// ops on ONE key, in the order they are to be issued: 2-3 set/deletes, never all deletes, all set
+// values distinct (set/set, set/delete, delete/set and their three-op extensions)
+func (g *genCtx) dupGroup(k []byte) []Op {
+	r := g.r
+	n := r.Range(2, 3)
+	var ops []Op
+	var vals [][]byte
+	sets := 0
+	for i := 0; i < n; i++ {
+		if r.Chance(2, 5) && !(i == n-1 && sets == 0) {
+			ops = append(ops, Op{T: "del", K: k})
+		} else {
+			v := g.otherValue(vals)
+			vals = append(vals, v)
+			ops = append(ops, Op{T: "set", K: k, V: v})
+			sets++
+		}
+	}
+	return ops
+}
+
+// a batch of 13-40 operations in which 1-6 keys are touched two or three times by set/delete; the
+// other keys once (set / delete), or by merges only (1-2 operands).  The per-key order is the order
+// of dupGroup; the groups are interleaved at random.  Returns the ops and the repeated keys.
+func (g *genCtx) bigDupBatch() ([]Op, [][]byte) {
+	r := g.r
+	n := r.Range(13, 40)
+	keys := append([][]byte{}, g.pool...)
+	vrand.Shuffle(r, keys)
+	nd := r.Range(1, 6)
+	var groups [][]Op
+	var dupKeys [][]byte
+	total := 0
+	for total < n && len(keys) > 0 {
+		k := keys[0]
+		keys = keys[1:]
+		var grp []Op
+		switch {
+		case len(dupKeys) < nd:
+			grp = g.dupGroup(k)
+			dupKeys = append(dupKeys, k)
+		case r.Chance(1, 6):
+			for i := r.Range(1, 2); i > 0; i-- {
+				grp = append(grp, Op{T: "merge", K: k, V: g.operand()})
+			}
+		case r.Chance(1, 4):
+			grp = []Op{{T: "del", K: k}}
+		default:
+			grp = []Op{{T: "set", K: k, V: g.value()}}
+		}
+		groups = append(groups, grp)
+		total += len(grp)
+	}
+	// order-preserving random interleaving
+	var tokens []int
+	for gi, grp := range groups {
+		for range grp {
+			tokens = append(tokens, gi)
+		}
+	}
+	vrand.Shuffle(r, tokens)
+	ops := make([]Op, 0, total)
+	for _, gi := range tokens {
+		ops = append(ops, groups[gi][0])
+		groups[gi] = groups[gi][1:]
+	}
+	return ops, dupKeys
+}
+
+// sets (sometimes merges) on m distinct pool keys
+func (g *genCtx) fillBatch(m int) []Op {
+	r := g.r
+	keys := append([][]byte{}, g.pool...)
+	vrand.Shuffle(r, keys)
+	if m > len(keys) {
+		m = len(keys)
+	}
+	var ops []Op
+	for _, k := range keys[:m] {
+		if r.Chance(1, 8) {
+			ops = append(ops, Op{T: "merge", K: k, V: g.operand()})
+		} else {
+			ops = append(ops, Op{T: "set", K: k, V: g.value()})
+		}
+	}
+	return ops
+}
+
+// bigdup: some keys present, a reader opened, then one or two LARGE batches touching keys repeatedly;
+// the old reader, a new reader (full dump) and a Get of every repeated key observe the outcome
+func genBigDup(r *vrand.R, storeName, mo string) In {
+	g := &genCtx{r: r, store: storeName, mo: mo}
+	minLen := 0
+	if storeName == "boltdb" {
+		minLen = 1
+	}
+	seen := map[string]bool{}
+	for n := r.Range(20, 44); len(g.pool) < n; {
+		k := randKey(r, minLen, 3)
+		if !seen[string(k)] {
+			seen[string(k)] = true
+			g.pool = append(g.pool, k)
+		}
+	}
+	var steps []Step
+	for i := r.Range(0, 2); i > 0; i-- {
+		steps = append(steps, Step{T: "batch", Ops: g.fillBatch(r.Range(3, 12))})
+	}
+	steps = append(steps, Step{T: "open", Rid: 1})
+	var dups [][]byte
+	for i := r.Range(1, 2); i > 0; i-- {
+		ops, dk := g.bigDupBatch()
+		steps = append(steps, Step{T: "batch", Ops: ops})
+		dups = append(dups, dk...)
+	}
+	steps = append(steps, Step{T: "open", Rid: 2})
+	for _, k := range dups {
+		steps = append(steps, Step{T: "read", Rid: 2, Read: &Read{T: "get", K: k}})
+	}
+	for _, rid := range []int{1, 2} {
+		steps = append(steps, Step{T: "read", Rid: rid, Read: &Read{T: "range", SNil: true, ENil: true, Prog: []IOp{{T: "drain"}}}})
+	}
+	steps = append(steps, Step{T: "close", Rid: 1}, Step{T: "close", Rid: 2})
+	return In{Kind: "bigdup", Store: storeName, Mo: mo, Steps: steps}
+}
+
+// ---------------------------------------------------------------- backward seeks after spread deletions
+
+func cloneKey(k []byte) []byte { return append([]byte{}, k...) }
+
+// Seek targets that lie at or before positions an iterator has already passed: a deleted key, a
+// truncation / extension of one, the start of the iterated range, nil / empty, a live key
+func (g *genCtx) backTarget(deleted, live [][]byte, around ...[]byte) IOp {
+	r := g.r
+	c := r.Intn(16)
+	switch {
+	case c < 7 && len(deleted) > 0:
+		return IOp{T: "seek", K: cloneKey(vrand.Pick(r, deleted))}
+	case c < 9 && len(deleted) > 0:
+		k := vrand.Pick(r, deleted)
+		if len(k) > 0 && r.Bool() {
+			return IOp{T: "seek", K: cloneKey(k[:len(k)-1])}
+		}
+		return IOp{T: "seek", K: append(cloneKey(k), 0x00)}
+	case c < 10:
+		if r.Bool() {
+			return IOp{T: "seek", KNil: true}
+		}
+		return IOp{T: "seek", K: []byte{}}
+	case c < 12 && len(around) > 0:
+		return IOp{T: "seek", K: cloneKey(vrand.Pick(r, around))}
+	case c < 14 && len(live) > 0:
+		return IOp{T: "seek", K: cloneKey(vrand.Pick(r, live))}
+	}
+	return g.seekKey(around...)
+}
+
+func (g *genCtx) backProgram(deleted, live [][]byte, around ...[]byte) []IOp {
+	r := g.r
+	tgt := func() IOp { return g.backTarget(deleted, live, around...) }
+	nexts := func(prog []IOp, lo, hi int) []IOp {
+		for n := r.Range(lo, hi); n > 0; n-- {
+			prog = append(prog, IOp{T: "next"})
+		}
+		return prog
+	}
+	var prog []IOp
+	switch r.Intn(4) {
+	case 0: // forward, back, forward, back, to the end
+		prog = nexts(prog, 1, 3)
+		prog = append(prog, tgt())
+		prog = nexts(prog, 0, 2)
+		prog = append(prog, tgt(), IOp{T: "drain"})
+	case 1: // exhaust, then Seek on the exhausted iterator
+		prog = append(prog, IOp{T: "drain"}, tgt())
+		prog = nexts(prog, 0, 2)
+		if r.Bool() {
+			prog = append(prog, tgt())
+		}
+		prog = append(prog, IOp{T: "drain"})
+	case 2: // jump past everything, then back
+		prog = append(prog, IOp{T: "seek", K: []byte{0xff, 0xff, 0xff, 0xff}}, tgt(), IOp{T: "drain"}, tgt())
+		prog = nexts(prog, 0, 2)
+	default:
+		for n := r.Range(4, 9); n > 0; n-- {
+			if r.Bool() {
+				prog = append(prog, tgt())
+			} else {
+				prog = append(prog, IOp{T: "next"})
+			}
+		}
+		if r.Bool() {
+			prog = append(prog, IOp{T: "drain"}, tgt())
+		}
+	}
+	return prog
+}
+
+// an iterator whose range starts at or before deleted keys
+func (g *genCtx) backRead(deleted, live [][]byte) *Read {
+	r := g.r
+	anchor := func() []byte {
+		if len(deleted) > 0 && !r.Chance(1, 4) {
+			return vrand.Pick(r, deleted)
+		}
+		return g.poolKey()
+	}
+	switch r.Intn(5) {
+	case 0:
+		return &Read{T: "range", SNil: true, ENil: true, Prog: g.backProgram(deleted, live)}
+	case 1, 2:
+		rd := &Read{T: "range"}
+		k := anchor()
+		rd.S = cloneKey(k[:r.Range(0, len(k))])
+		if r.Chance(1, 6) {
+			rd.S, rd.SNil = nil, true
+		}
+		if r.Chance(2, 3) {
+			rd.ENil = true
+		} else {
+			rd.E = g.anyKey()
+			if string(rd.E) < string(rd.S) {
+				rd.E = append(cloneKey(rd.S), 0xff, 0xff)
+			}
+		}
+		if rd.S == nil && !rd.SNil {
+			rd.S = []byte{}
+		}
+		if rd.E == nil && !rd.ENil {
+			rd.E = []byte{}
+		}
+		rd.Prog = g.backProgram(deleted, live, rd.S)
+		return rd
+	}
+	for {
+		k := anchor()
+		p := cloneKey(k[:r.Range(0, len(k))])
+		if endsFF(p) && g.store == "moss" {
+			// moss + prefix ending in 0xff lives in the pfxff cases only (class moss-prefix-ff)
+			continue
+		}
+		rd := &Read{T: "prefix", P: p}
+		if len(p) == 0 && r.Bool() {
+			rd.PNil = true
+		}
+		rd.Prog = g.backProgram(deleted, live, p)
+		return rd
+	}
+}
+
+// bseek: keys written by 1-3 batches, then 2-4 further batches each deleting one or two of them
+// (preferably the smallest live keys, so that iterators start behind tombstones that sit in several
+// engine segments / versions), readers opened before, between and after; then iterators driven by
+// programs that Seek backwards and Seek after exhaustion.  Every batch holds each key once.
+func genBackSeek(r *vrand.R, storeName, mo string) In {
+	g := &genCtx{r: r, store: storeName, mo: mo}
+	g.makePoolN(r.Range(6, 12))
+	sort.Slice(g.pool, func(i, j int) bool { return bytes.Compare(g.pool[i], g.pool[j]) < 0 })
+	uniq := g.pool[:0]
+	for i, k := range g.pool {
+		if i == 0 || !bytes.Equal(k, g.pool[i-1]) {
+			uniq = append(uniq, k)
+		}
+	}
+	g.pool = uniq
+	var steps []Step
+	live := map[string]bool{}
+	liveKeys := func() [][]byte { // sorted
+		var l [][]byte
+		for _, k := range g.pool {
+			if live[string(k)] {
+				l = append(l, k)
+			}
+		}
+		return l
+	}
+	// base data: one batch (everything in one engine segment) or spread over 2-3
+	nb := 1
+	if r.Bool() {
+		nb = r.Range(2, 3)
+	}
+	base := make([][]Op, nb)
+	for _, k := range g.pool {
+		if r.Chance(5, 6) {
+			b := r.Intn(nb)
+			if r.Chance(1, 8) {
+				base[b] = append(base[b], Op{T: "merge", K: k, V: g.operand()})
+			} else {
+				base[b] = append(base[b], Op{T: "set", K: k, V: g.value()})
+			}
+			live[string(k)] = true
+		}
+	}
+	for _, ops := range base {
+		steps = append(steps, Step{T: "batch", Ops: ops})
+	}
+	var open []int
+	nextRid := 1
+	openReader := func() {
+		steps = append(steps, Step{T: "open", Rid: nextRid})
+		open = append(open, nextRid)
+		nextRid++
+	}
+	if r.Bool() {
+		openReader()
+	}
+	var deleted [][]byte
+	nd := r.Range(2, 4)
+	for i := 0; i < nd; i++ {
+		used := map[string]bool{}
+		var ops []Op
+		for v := r.Range(1, 2); v > 0; v-- {
+			l := liveKeys()
+			var cand [][]byte
+			for _, k := range l {
+				if !used[string(k)] {
+					cand = append(cand, k)
+				}
+			}
+			if len(cand) == 0 {
+				break
+			}
+			var k []byte
+			if r.Chance(2, 3) {
+				// the smallest live key, or the smallest one at/after a random pool key
+				from := []byte{}
+				if r.Chance(1, 3) {
+					from = g.poolKey()
+				}
+				k = cand[0]
+				for _, c := range cand {
+					if bytes.Compare(c, from) >= 0 {
+						k = c
+						break
+					}
+				}
+			} else {
+				k = vrand.Pick(r, cand)
+			}
+			used[string(k)] = true
+			live[string(k)] = false
+			deleted = append(deleted, k)
+			ops = append(ops, Op{T: "del", K: k})
+		}
+		// company: a set / merge of another key (sometimes bringing an earlier deleted key back)
+		for c := r.Intn(3); c > 0; c-- {
+			k := g.poolKey()
+			if used[string(k)] {
+				continue
+			}
+			used[string(k)] = true
+			o := Op{T: "set", K: k, V: g.value()}
+			if r.Chance(1, 4) {
+				o = Op{T: "merge", K: k, V: g.operand()}
+			}
+			live[string(k)] = true
+			if r.Bool() {
+				ops = append(ops, o)
+			} else {
+				ops = append([]Op{o}, ops...)
+			}
+		}
+		steps = append(steps, Step{T: "batch", Ops: ops})
+		if i < nd-1 && len(open) < 2 && r.Chance(1, 3) {
+			openReader()
+		}
+	}
+	openReader()
+	newest := open[len(open)-1]
+	for n := r.Range(2, 4); n > 0; n-- {
+		rd := g.backRead(deleted, liveKeys())
+		steps = append(steps, Step{T: "read", Rid: newest, Read: rd})
+		// the same iterator on the readers opened earlier (they still hold the deleted keys)
+		for _, rid := range open[:len(open)-1] {
+			if r.Bool() {
+				steps = append(steps, Step{T: "read", Rid: rid, Read: rd})
+			}
+		}
+	}
+	if r.Chance(1, 3) {
+		// one more version on top, then the now stale newest reader again
+		var ops []Op
+		if len(deleted) > 0 {
+			k := vrand.Pick(r, deleted)
+			ops = append(ops, Op{T: "set", K: k, V: g.value()})
+			live[string(k)] = true
+		}
+		for _, k := range liveKeys() {
+			if len(ops) == 0 || !bytes.Equal(k, ops[0].K) {
+				ops = append(ops, Op{T: "del", K: k})
+				deleted = append(deleted, k)
+				live[string(k)] = false
+				break
+			}
+		}
+		steps = append(steps, Step{T: "batch", Ops: ops})
+		steps = append(steps, Step{T: "read", Rid: newest, Read: g.backRead(deleted, liveKeys())})
+	}
+	return In{Kind: "bseek", Store: storeName, Mo: mo, Steps: g.finish(steps, open, nextRid)}
+}
+
 func gen(f vh.Flags, r *vrand.R, emit func(In)) {
 	per := f.N(60, 3000) // general sequences per store
 	for _, s := range stores {
@@ -687,6 +1110,33 @@ func gen(f vh.Flags, r *vrand.R, emit func(In)) {
 	nm := f.N(150, 7500)
 	for i := 0; i < nm; i++ {
 		emit(genMop(r.Fork(), i%3 != 0))
+	}
+	// large batches (13-40 ops) with keys touched two or three times: not moss — a repeated key in a
+	// moss batch is the class of the dup cases above (moss-batch-dupkey), which stay the only place
+	// where moss sees one
+	nbd := f.N(12, 600)
+	for _, s := range []string{"gtreap", "boltdb", "goleveldb", "metrics"} {
+		for i := 0; i < nbd; i++ {
+			mo := "cat"
+			if i%3 == 2 {
+				mo = "catnp"
+			}
+			emit(genBigDup(r.Fork(), s, mo))
+		}
+	}
+	// backward Seeks / Seeks on exhausted iterators after deletions spread over several batches
+	nbs := f.N(14, 700)
+	for _, s := range stores {
+		for i := 0; i < nbs; i++ {
+			mo := "cat"
+			switch i % 5 {
+			case 3:
+				mo = "catnp"
+			case 4:
+				mo = "udc"
+			}
+			emit(genBackSeek(r.Fork(), s, mo))
+		}
 	}
 }
 
@@ -752,9 +1202,12 @@ func observe(it store.KVIterator) (cf.T, bool) {
 	return cf.Pair(cEntry(k, v, ok), cEntry(kk, vv, valid)), ok
 }
 
+// what kinds of Seek a case contained (for the input distribution in the evidence)
+type iterFlags struct{ backward, exhausted bool }
+
 // runs an iterator program; returns the recorded (expanded) program, the observations and whether
 // any position was valid
-func runIter(it store.KVIterator, prog []IOp) (cf.T, cf.T, bool) {
+func runIter(it store.KVIterator, prog []IOp, fl *iterFlags) (cf.T, cf.T, bool) {
 	var ops, obs []cf.T
 	any := false
 	o, valid := observe(it)
@@ -763,6 +1216,11 @@ func runIter(it store.KVIterator, prog []IOp) (cf.T, cf.T, bool) {
 	for _, p := range prog {
 		switch p.T {
 		case "seek":
+			if ck, _, ok := it.Current(); !ok {
+				fl.exhausted = true
+			} else if bytes.Compare(p.K, ck) < 0 {
+				fl.backward = true
+			}
 			if p.KNil {
 				it.Seek(nil)
 			} else {
@@ -818,7 +1276,8 @@ func execSeq(in In) vh.Result {
 	}
 	var steps []cf.T
 	var direct *vh.Direct
-	batches, nonEmptyReads, staleReads := 0, 0, 0
+	batches, nonEmptyReads, staleReads, maxBatch := 0, 0, 0, 0
+	var fl iterFlags
 	d := vh.Guard(60*time.Second, "sequence on "+in.Store, func() {
 		s, rm, err := openStore(in.Store, moOf(in.Mo))
 		if rm != "" {
@@ -862,6 +1321,9 @@ func execSeq(in In) vh.Result {
 						b.Merge(o.K, bytesOrNil(o.V, false))
 						ops = append(ops, cf.App("BMerge", cf.Bytes(o.K), cf.Bytes(o.V)))
 					}
+				}
+				if len(st.Ops) > maxBatch {
+					maxBatch = len(st.Ops)
 				}
 				err = w.ExecuteBatch(b)
 				_ = b.Close()
@@ -929,7 +1391,7 @@ func execSeq(in In) vh.Result {
 						direct = &vh.Direct{Kind: "nil-iterator", Detail: fmt.Sprintf("PrefixIterator(%x) returned nil", q.P)}
 						return
 					}
-					prog, obs, any := runIter(it, q.Prog)
+					prog, obs, any := runIter(it, q.Prog, &fl)
 					_ = it.Close()
 					if any {
 						nonEmptyReads++
@@ -941,7 +1403,7 @@ func execSeq(in In) vh.Result {
 						direct = &vh.Direct{Kind: "nil-iterator", Detail: fmt.Sprintf("RangeIterator(%x,%x) returned nil", q.S, q.E)}
 						return
 					}
-					prog, obs, any := runIter(it, q.Prog)
+					prog, obs, any := runIter(it, q.Prog, &fl)
 					_ = it.Close()
 					if any {
 						nonEmptyReads++
@@ -969,6 +1431,15 @@ func execSeq(in In) vh.Result {
 	}
 	if nonEmptyReads > 0 {
 		res.Hist = append(res.Hist, "nonempty-read")
+	}
+	if fl.backward {
+		res.Hist = append(res.Hist, "backward-seek")
+	}
+	if fl.exhausted {
+		res.Hist = append(res.Hist, "seek-on-invalid-iterator")
+	}
+	if maxBatch > 12 {
+		res.Hist = append(res.Hist, "batch-over-12-ops")
 	}
 	return res
 }
@@ -1021,7 +1492,11 @@ func main() {
 			"for gtreap, boltdb (non-empty keys), goleveldb, moss and metrics-over-gtreap with merge operators cat / cat-without-partial-merge / upsidedown's own: " +
 			"batches whose native form holds each key once; readers opened at random points and read later (get, prefix and range iterators under Seek/Next programs, Next only while valid); " +
 			"separate small case kinds: pfxff (one prefix iteration with a prefix ending in 0xff), mget (one MultiGet of 1-4 keys), dup (a key set/deleted several times in one batch, or several operands under an operator refusing partial merges), " +
-			"policy (a key merged and set/deleted in one batch; not moss), mopfull/moppartial (upsidedown's merge operator called directly). " +
+			"policy (a key merged and set/deleted in one batch; not moss), " +
+			"bigdup (one or two batches of 13-40 operations over 20-44 keys in which 1-6 keys are set/deleted two or three times with distinct values, the rest once or merged; old and new reader dump everything; not moss), " +
+			"bseek (6-12 keys written by 1-3 batches, then 2-4 batches each deleting one or two of them, mostly the smallest live ones, readers opened before / between / after; " +
+			"prefix and range iterators starting at or before deleted keys under programs that Seek backwards - to deleted keys, their truncations, the range start, nil - and Seek after exhaustion; all five stores, every batch holding each key once), " +
+			"mopfull/moppartial (upsidedown's merge operator called directly). " +
 			"A sequence case is non-trivial when at least one batch ran and at least one read returned something (a value, or an iterator position that was valid).",
 		ShardSize: 120,
 		Workers:   8,
